@@ -39,7 +39,8 @@
 (*                            DefaultErrorFunc (log's ErrorFunc or         *)
 (*                            Server.ServeHTTP) writes on the ORIGINAL     *)
 (*                            writer, outside header's wrapper             *)
-(*   Net                     net/http finishes the response (sniffing)     *)
+(*   Net                     net/http finishes the response (sniffing);    *)
+(*                            the answer is complete (fin), its id noted   *)
 (*   Finish                  the battery is through                        *)
 (*                                                                         *)
 (* The guarantees are written declaratively in section 6, from the lines   *)
@@ -48,16 +49,20 @@
 (* Deliberate deviations: the values of one header key are applied in one  *)
 (* step (the inner `for value` loop); a header line's sub-block is parsed  *)
 (* in the step of its line; paths are segment lists (all bases and request *)
-(* paths are clean, lower-case, and no request segment has a base segment  *)
-(* as a proper string prefix, so strings.HasPrefix = segment prefix -      *)
-(* ASSUME AlphabetOK); Content-Type values chosen by net/http (sniffing,   *)
-(* mime.TypeByExtension of an unlisted extension) are the token "~auto".   *)
+(* paths are clean, lower-case, and no name of the world extends a base    *)
+(* segment, so strings.HasPrefix = segment prefix - ASSUME AlphabetOK);    *)
+(* Content-Type values chosen by net/http (sniffing, mime.TypeByExtension  *)
+(* of an unlisted extension) are the token "~auto"; the battery is served  *)
+(* in its written order on one connection (the harness also sends it in    *)
+(* reverse: no answer depends on the order, only fresh ids are numbered).  *)
 (***************************************************************************)
 EXTENDS Integers, Sequences, FiniteSets, TLC, Json
 
 CONSTANTS MaxLines,      \* a site has at most this many lines of the pools
           Sample2,       \* of the sites with two lines one in Sample2 is set up and served (hash of ids and -seed; 1 = all)
-          Sample3        \* the same for three and more lines
+          Sample3,       \* the same for three and more lines
+          Extend3        \* only one in Extend3 of the two-line sites is extended by a third line at all (1 = all):
+                         \* keeps the enumeration of the quick tier small, the three-line sites are sampled among those
 
 -----------------------------------------------------------------------------
 (* 1. the world: the site root, paths, the request battery *)
@@ -159,7 +164,7 @@ Pool == [
                  << Op("set", CT, <<"text/x-hdr">>), Op("add", "X-B", <<"{path}">>) >>),
   hF |-> HdrLine(<<"header / -Content-Type">>, "/", <<>>, << Op("del", CT, <<>>) >>),
   hG |-> HdrLine(<<"header / X-Rid {request_id}">>, "/", <<>>, << Op("set", "X-Rid", <<"{request_id}">>) >>),
-  hH |-> HdrLine(<<"header /a X-A three">>, "/a", <<"a">>, << Op("set", "X-A", <<"three">>) >>),
+  hH |-> HdrLine(<<"header /a {", "X-A three", "+X-A four", "}">>, "/a", <<"a">>, << Op("set", "X-A", <<"three">>), Op("add", "X-A", <<"four">>) >>),
   \* ---- mime: extension -> Content-Type
   mA |-> MimeLine(<<"mime .txt text/x-one">>, << ME(".txt", "text/x-one") >>, FALSE),
   mB |-> MimeLine(<<"mime .bin app/x-two">>, << ME(".bin", "app/x-two") >>, FALSE),
@@ -177,8 +182,8 @@ Pool == [
   rB |-> RidLine(<<"request_id X-Request-Id">>, "X-Request-Id"),
   rC |-> RidLine(<<"request_id X-Other">>, "X-Other"),
   \* ---- index, ext
-  iA |-> IndexLine(<<"index home.txt">>, <<"home.txt">>),
-  iB |-> IndexLine(<<"index main.bin home.txt">>, <<"main.bin", "home.txt">>),
+  iA |-> IndexLine(<<"index main.bin">>, <<"main.bin">>),
+  iB |-> IndexLine(<<"index home.txt main.bin">>, <<"home.txt", "main.bin">>),
   eA |-> ExtLine(<<"ext .txt">>, <<".txt">>),
   eB |-> ExtLine(<<"ext .bin .txt">>, <<".bin", ".txt">>),
   \* ---- expvar [path], pprof, browse
@@ -194,6 +199,8 @@ Pool == [
   sX |-> Bad("status", <<"status abc /a">>, "not numeric"),
   sY |-> Bad("status", <<"status 404">>, "no path"),
   sZ |-> Bad("status", <<"status 404 /a /b">>, "three arguments"),
+  sV |-> Bad("status", <<"status 0 /a">>, "not a status code"),           \* net/http panics on WriteHeader(0): refused since the repair
+  sW |-> Bad("status", <<"status 1000 {", "/a/b", "}">>, "not a status code"),
   rX |-> Bad("request_id", <<"request_id A B">>, "two arguments"),
   iX |-> Bad("index", <<"index">>, "no name"),
   eX |-> Bad("ext", <<"ext">>, "no extension"),
@@ -201,7 +208,7 @@ Pool == [
   pX |-> Bad("pprof", <<"pprof on">>, "argument") ]
 
 IdSeq == << "hA","hB","hC","hD","hE","hF","hG","hH","mA","mB","mC","mD","mE","mF","sA","sB","sC","sD","rA","rB","rC",
-            "iA","iB","eA","eB","vA","vB","pA","bA","hX","hY","mX","mY","sX","sY","sZ","rX","iX","eX","vX","pX" >>
+            "iA","iB","eA","eB","vA","vB","pA","bA","hX","hY","mX","mY","sX","sY","sZ","sV","sW","rX","iX","eX","vX","pX" >>
 Ids     == {IdSeq[q] : q \in 1..Len(IdSeq)}
 GoodIds == {id \in Ids : Pool[id].bad = ""}
 BadIds  == Ids \ GoodIds
@@ -242,14 +249,16 @@ VARIABLES site,      \* the Casketfile as written: directive -> sequence of pool
           sf,        \* file the file server is about to serve
           ans,       \* the answer: [status, kind, file, loc, via]
           g,         \* ghost: what individual steps did (for the declarative properties only)
-          outs       \* answers of this site so far, in battery order
-vars == <<site, pc, sd, sl, cfg, x, nfresh, cur, rid, hdr, dfr, i, j, sel, sf, ans, g, outs>>
+          fin,       \* the finished answer of the current request (what the client got), NoFin before
+          rids       \* request ids of this site so far, in battery order: [rid, fresh]
+vars == <<site, pc, sd, sl, cfg, x, nfresh, cur, rid, hdr, dfr, i, j, sel, sf, ans, g, fin, rids>>
 
 NoSite == [d \in Directives |-> <<>>]
 Cfg0 == [index |-> DefaultIndex, ridOn |-> FALSE, ridName |-> "", exts |-> <<>>,
          hrules |-> <<>>, srules |-> <<>>, mimeOn |-> FALSE, mime |-> [e \in MimeExts |-> ""], mimeDefaults |-> FALSE,
          pprofOn |-> FALSE, expvarOn |-> FALSE, expvarRes |-> <<>>, browseOn |-> FALSE, browseBase |-> <<>>]
-NoAns == [status |-> 0, kind |-> "none", file |-> "", loc |-> "", via |-> "none"]
+NoAns == [status |-> 0, kind |-> "none", file |-> "", loc |-> "", via |-> "none", body |-> TRUE]
+NoFin == [status |-> 0]
 G0 == [extK |-> 0, idxK |-> 0, hnext |-> NoHdr, hran |-> FALSE, down |-> <<>>, mimeRan |-> FALSE, mimeCT |-> "",
        sel |-> 0, reached |-> FALSE, sawPath |-> "", sawRid |-> "", fresh |-> FALSE]
 
@@ -263,34 +272,47 @@ SeedNum == LET sd0 == TLCGet("config").seed         \* TLC hands the -seed value
            IN  IF hit = {} THEN 0 ELSE CHOOSE q \in hit : TRUE
 RECURSIVE HashSeq(_, _)
 HashSeq(b, q) == IF q > Len(b) THEN 0 ELSE ((q * 31 + 7) * IdNum(b[q]) + HashSeq(b, q + 1)) % 1000003
+\* two-line sites every tier serves whatever the hash says: the interplay each clause is about
+Pinned == { <<"eB","hD">>,      \* {rewrite_path} after an ext rewrite
+            <<"eA","mA">>,      \* mime sees the rewritten extension
+            <<"iA","iB">>,      \* index lines accumulate
+            <<"iB","bA">>,      \* browse leaves a directory with an index page to the file server
+            <<"rB","hG">>,      \* the id in the header placeholder, the handler and the log
+            <<"hA","hC">>, <<"hC","hA">>,   \* set then delete / delete then set
+            <<"hB","hH">>, <<"hH","hB">>,   \* two lines with one pattern are one rule
+            <<"hF","mA">>,      \* a deleted Content-Type stays deleted when mime sets it later
+            <<"hE","mB">>,      \* mime replaces what header set
+            <<"sC","sA">>,      \* longest base wins, not the first
+            <<"mA","mC">>, <<"sA","sA">> }  \* duplicates
 Sampled(s) == LET n == NLines(s)
                   oneIn == IF n <= 1 THEN 1 ELSE IF n = 2 THEN Sample2 ELSE Sample3
-              IN (HashSeq(AllLines(s), 1) + 17 * SeedNum) % oneIn = 0
+              IN AllLines(s) \in Pinned \/ (HashSeq(AllLines(s), 1) + 17 * SeedNum) % oneIn = 0
 
 Init == /\ site = NoSite /\ pc = "build" /\ sd = 0 /\ sl = 0 /\ cfg = Cfg0 /\ x = 0 /\ nfresh = 0
         /\ cur = RootPath /\ rid = "" /\ hdr = NoHdr /\ dfr = {} /\ i = 0 /\ j = 0 /\ sel = 0 /\ sf = <<>>
-        /\ ans = NoAns /\ g = G0 /\ outs = <<>>
+        /\ ans = NoAns /\ g = G0 /\ fin = NoFin /\ rids = <<>>
 
 -----------------------------------------------------------------------------
 (* 4. writing the site, and the setups *)
 
-AddLine(id) == /\ pc = "build" /\ NLines(site) < MaxLines
+Extended(s) == NLines(s) < 2 \/ (HashSeq(AllLines(s), 1) + 5 * SeedNum) % Extend3 = 0
+AddLine(id) == /\ pc = "build" /\ NLines(site) < MaxLines /\ Extended(site)
                /\ \A q \in 1..Len(AllLines(site)) : AllLines(site)[q] \in GoodIds
                /\ site' = [site EXCEPT ![Pool[id].d] = Append(@, id)]
-               /\ UNCHANGED <<pc, sd, sl, cfg, x, nfresh, cur, rid, hdr, dfr, i, j, sel, sf, ans, g, outs>>
+               /\ UNCHANGED <<pc, sd, sl, cfg, x, nfresh, cur, rid, hdr, dfr, i, j, sel, sf, ans, g, fin, rids>>
 AddBad(id) == /\ pc = "build" /\ NLines(site) = 0          \* a line the setup refuses by itself: alone
               /\ site' = [site EXCEPT ![Pool[id].d] = <<id>>]
-              /\ UNCHANGED <<pc, sd, sl, cfg, x, nfresh, cur, rid, hdr, dfr, i, j, sel, sf, ans, g, outs>>
+              /\ UNCHANGED <<pc, sd, sl, cfg, x, nfresh, cur, rid, hdr, dfr, i, j, sel, sf, ans, g, fin, rids>>
 StartSetup == /\ pc = "build" /\ Sampled(site)
               /\ pc' = "setup" /\ sd' = 1 /\ sl' = 1
-              /\ UNCHANGED <<site, cfg, x, nfresh, cur, rid, hdr, dfr, i, j, sel, sf, ans, g, outs>>
+              /\ UNCHANGED <<site, cfg, x, nfresh, cur, rid, hdr, dfr, i, j, sel, sf, ans, g, fin, rids>>
 
 CurDir   == DirOrder[sd]
 CurLines == site[CurDir]
 AtLine(d) == pc = "setup" /\ CurDir = d /\ sl <= Len(CurLines)
 Line == Pool[CurLines[sl]]
-Accept(c) == cfg' = c /\ sl' = sl + 1 /\ UNCHANGED <<site, pc, sd, x, nfresh, cur, rid, hdr, dfr, i, j, sel, sf, ans, g, outs>>
-Refuse == pc' = "refused" /\ UNCHANGED <<site, sd, sl, cfg, x, nfresh, cur, rid, hdr, dfr, i, j, sel, sf, ans, g, outs>>
+Accept(c) == cfg' = c /\ sl' = sl + 1 /\ UNCHANGED <<site, pc, sd, x, nfresh, cur, rid, hdr, dfr, i, j, sel, sf, ans, g, fin, rids>>
+Refuse == pc' = "refused" /\ UNCHANGED <<site, sd, sl, cfg, x, nfresh, cur, rid, hdr, dfr, i, j, sel, sf, ans, g, fin, rids>>
 
 \* index/index.go setupIndex: the names of all lines, in order, replace the default list
 ParseIndex == /\ AtLine("index")
@@ -328,7 +350,7 @@ StatusAdd(rules, code, bases, q) ==
     ELSE IF \E y \in 1..Len(rules) : rules[y].base = bases[q] THEN [ok |-> FALSE, rules |-> rules]
     ELSE StatusAdd(Append(rules, [base |-> bases[q], code |-> code]), code, bases, q + 1)
 ParseStatus == /\ AtLine("status")
-               /\ IF Line.bad # "" THEN Refuse                                 \* Atoi fails / c.ArgErr()
+               /\ IF Line.bad # "" THEN Refuse                                 \* Atoi fails / c.ArgErr() / not in 100..999
                   ELSE LET r == StatusAdd(cfg.srules, Line.code, Line.bases, 1)
                        IN IF r.ok THEN Accept([cfg EXCEPT !.srules = r.rules]) ELSE Refuse
 
@@ -351,13 +373,15 @@ ParsePprof == /\ AtLine("pprof")
 ParseExpvar == /\ AtLine("expvar")
                /\ IF Line.bad # "" THEN Refuse
                   ELSE Accept([cfg EXCEPT !.expvarOn = TRUE, !.expvarRes = Line.res])
+\* browse/setup.go browseParse: "duplicate browsing config" for a path scope written twice
 ParseBrowse == /\ AtLine("browse")
-               /\ Accept([cfg EXCEPT !.browseOn = TRUE, !.browseBase = Line.base])
+               /\ IF cfg.browseOn /\ cfg.browseBase = Line.base THEN Refuse
+                  ELSE Accept([cfg EXCEPT !.browseOn = TRUE, !.browseBase = Line.base])
 
 NextDirective == /\ pc = "setup" /\ sl > Len(CurLines)
                  /\ IF sd < Len(DirOrder) THEN sd' = sd + 1 /\ sl' = 1 /\ pc' = pc
                                           ELSE sd' = 0 /\ sl' = 0 /\ pc' = "ready"
-                 /\ UNCHANGED <<site, cfg, x, nfresh, cur, rid, hdr, dfr, i, j, sel, sf, ans, g, outs>>
+                 /\ UNCHANGED <<site, cfg, x, nfresh, cur, rid, hdr, dfr, i, j, sel, sf, ans, g, fin, rids>>
 
 -----------------------------------------------------------------------------
 (* 5. serving the battery *)
@@ -373,10 +397,10 @@ Rq0 == Reqs[x]
 Keep(vs) == UNCHANGED vs
 StartRequest == /\ pc \in {"ready", "done"} /\ x < NReq
                 /\ x' = x + 1 /\ cur' = Reqs[x + 1].p /\ rid' = "" /\ hdr' = NoHdr /\ dfr' = {}
-                /\ i' = 1 /\ j' = 0 /\ sel' = 0 /\ sf' = <<>> /\ ans' = NoAns /\ g' = G0 /\ pc' = Chain[1]
-                /\ UNCHANGED <<site, sd, sl, cfg, nfresh, outs>>
+                /\ i' = 1 /\ j' = 0 /\ sel' = 0 /\ sf' = <<>> /\ ans' = NoAns /\ g' = G0 /\ fin' = NoFin /\ pc' = Chain[1]
+                /\ UNCHANGED <<site, sd, sl, cfg, nfresh, rids>>
 Finish == /\ pc = "done" /\ x = NReq /\ pc' = "end"
-          /\ UNCHANGED <<site, sd, sl, cfg, x, nfresh, cur, rid, hdr, dfr, i, j, sel, sf, ans, g, outs>>
+          /\ UNCHANGED <<site, sd, sl, cfg, x, nfresh, cur, rid, hdr, dfr, i, j, sel, sf, ans, g, fin, rids>>
 
 \* requestid.Handler.ServeHTTP: the client's id if a header name is configured, the header is there and parses; else uuid.New()
 RequestID == /\ pc = "rid"
@@ -386,19 +410,19 @@ RequestID == /\ pc = "rid"
                    /\ nfresh' = IF taken THEN nfresh ELSE nfresh + 1
                    /\ g' = [g EXCEPT !.fresh = ~taken]
              /\ pc' = After("rid")
-             /\ UNCHANGED <<site, sd, sl, cfg, x, cur, hdr, dfr, i, j, sel, sf, ans, outs>>
+             /\ UNCHANGED <<site, sd, sl, cfg, x, cur, hdr, dfr, i, j, sel, sf, ans, fin, rids>>
 
 \* extensions.Ext.ServeHTTP
 ExtBegin == /\ pc = "ext"
             /\ IF ~cur.slash /\ cur.segs # <<>> /\ ~Exists(cur.segs)            \* not a "/" path and os.Stat(path) fails
                THEN pc' = "exttry" /\ i' = 1 ELSE pc' = After("ext") /\ i' = 1
-            /\ UNCHANGED <<site, sd, sl, cfg, x, nfresh, cur, rid, hdr, dfr, j, sel, sf, ans, g, outs>>
+            /\ UNCHANGED <<site, sd, sl, cfg, x, nfresh, cur, rid, hdr, dfr, j, sel, sf, ans, g, fin, rids>>
 ExtTry == /\ pc = "exttry"
           /\ IF i > Len(cfg.exts) THEN pc' = After("ext") /\ i' = 1 /\ UNCHANGED <<cur, g>>
              ELSE IF Exists(WithExt(cur.segs, cfg.exts[i]))                      \* os.Stat(path + ext) == nil: rewrite, break
                   THEN cur' = Pth(WithExt(cur.segs, cfg.exts[i]), FALSE) /\ g' = [g EXCEPT !.extK = i] /\ pc' = After("ext") /\ i' = 1
                   ELSE i' = i + 1 /\ UNCHANGED <<cur, g, pc>>
-          /\ UNCHANGED <<site, sd, sl, cfg, x, nfresh, rid, hdr, dfr, j, sel, sf, ans, outs>>
+          /\ UNCHANGED <<site, sd, sl, cfg, x, nfresh, rid, hdr, dfr, j, sel, sf, ans, fin, rids>>
 
 \* the replacer: one left-to-right pass over the value as written
 ExpandPart(t) == CASE t = "{path}" -> PStr(Rq0.p) [] t = "{rewrite_path}" -> PStr(cur) [] t = "{request_id}" -> rid [] OTHER -> t
@@ -413,7 +437,7 @@ ApplyOp(h, k, n, vals) == CASE k = "del" -> [h EXCEPT ![n] = <<>>]
 \* header.Headers.ServeHTTP
 HeaderRule == /\ pc = "header" /\ j = 0 /\ i <= Len(cfg.hrules)
               /\ IF PathMatches(cur, cfg.hrules[i].base) THEN j' = 1 /\ i' = i ELSE i' = i + 1 /\ j' = 0
-              /\ UNCHANGED <<site, pc, sd, sl, cfg, x, nfresh, cur, rid, hdr, dfr, sel, sf, ans, g, outs>>
+              /\ UNCHANGED <<site, pc, sd, sl, cfg, x, nfresh, cur, rid, hdr, dfr, sel, sf, ans, g, fin, rids>>
 HeaderOp == /\ pc = "header" /\ j >= 1
             /\ LET rule == cfg.hrules[i]
                    key == rule.keys[j]
@@ -421,26 +445,26 @@ HeaderOp == /\ pc = "header" /\ j >= 1
                IN /\ hdr' = ApplyOp(hdr, key.k, key.n, vals)
                   /\ dfr' = IF key.k = "del" THEN dfr \cup {key.n} ELSE dfr     \* rww.delHeader: delete now AND at WriteHeader
                   /\ IF j < Len(rule.keys) THEN j' = j + 1 /\ i' = i ELSE j' = 0 /\ i' = i + 1
-            /\ UNCHANGED <<site, pc, sd, sl, cfg, x, nfresh, cur, rid, sel, sf, ans, g, outs>>
+            /\ UNCHANGED <<site, pc, sd, sl, cfg, x, nfresh, cur, rid, sel, sf, ans, g, fin, rids>>
 HeaderNext == /\ pc = "header" /\ j = 0 /\ i > Len(cfg.hrules)
               /\ g' = [g EXCEPT !.hnext = hdr, !.hran = TRUE]                   \* return h.Next.ServeHTTP(rww, r)
               /\ pc' = After("header") /\ i' = 1
-              /\ UNCHANGED <<site, sd, sl, cfg, x, nfresh, cur, rid, hdr, dfr, j, sel, sf, ans, outs>>
+              /\ UNCHANGED <<site, sd, sl, cfg, x, nfresh, cur, rid, hdr, dfr, j, sel, sf, ans, fin, rids>>
 
 \* status.Status.ServeHTTP: ConfigSelector.Select keeps the matching rule with the longest base path
 StatusSelect == /\ pc = "status" /\ i <= Len(cfg.srules)
                 /\ sel' = IF PathMatches(cur, cfg.srules[i].base) /\ (sel = 0 \/ Len(BaseStr(cfg.srules[i].base)) > Len(BaseStr(cfg.srules[sel].base)))
                           THEN i ELSE sel
                 /\ i' = i + 1
-                /\ UNCHANGED <<site, pc, sd, sl, cfg, x, nfresh, cur, rid, hdr, dfr, j, sf, ans, g, outs>>
+                /\ UNCHANGED <<site, pc, sd, sl, cfg, x, nfresh, cur, rid, hdr, dfr, j, sf, ans, g, fin, rids>>
 StatusAnswer == /\ pc = "status" /\ i > Len(cfg.srules)
                 /\ g' = [g EXCEPT !.sel = sel]
                 /\ IF sel = 0 THEN pc' = After("status") /\ ans' = ans
                    ELSE IF cfg.srules[sel].code < 400
-                        THEN ans' = [ans EXCEPT !.status = cfg.srules[sel].code, !.kind = "status"] /\ pc' = "commit"   \* w.WriteHeader(code); return 0
+                        THEN ans' = [ans EXCEPT !.status = cfg.srules[sel].code, !.kind = "status", !.body = FALSE] /\ pc' = "commit"   \* w.WriteHeader(code); return 0
                         ELSE ans' = [ans EXCEPT !.status = cfg.srules[sel].code, !.kind = "error"] /\ pc' = "fallback"  \* return code, nil
                 /\ i' = 1
-                /\ UNCHANGED <<site, sd, sl, cfg, x, nfresh, cur, rid, hdr, dfr, j, sel, sf, outs>>
+                /\ UNCHANGED <<site, sd, sl, cfg, x, nfresh, cur, rid, hdr, dfr, j, sel, sf, fin, rids>>
 
 \* mime.Mime.ServeHTTP
 MimeType(e) == IF e \in MimeExts /\ cfg.mime[e] # "" THEN cfg.mime[e]
@@ -452,7 +476,7 @@ MimeSet == /\ pc = "mime"
               IN /\ hdr' = IF t # "" THEN [hdr EXCEPT ![CT] = <<t>>] ELSE hdr
                  /\ g' = [g EXCEPT !.mimeRan = TRUE, !.mimeCT = t, !.down = IF t # "" THEN Down(@, "set", CT, t) ELSE @]
            /\ pc' = After("mime")
-           /\ UNCHANGED <<site, sd, sl, cfg, x, nfresh, cur, rid, dfr, i, j, sel, sf, ans, outs>>
+           /\ UNCHANGED <<site, sd, sl, cfg, x, nfresh, cur, rid, dfr, i, j, sel, sf, ans, fin, rids>>
 
 \* pprof.Handler.ServeHTTP (cmdline is the one sub-page of the battery: net/http/pprof.Cmdline sets both headers)
 Pprof == /\ pc = "pprof"
@@ -461,7 +485,7 @@ Pprof == /\ pc = "pprof"
                  /\ g' = [g EXCEPT !.down = Down(Down(@, "set", XCTO, "nosniff"), "set", CT, TextPlain)]
                  /\ ans' = [ans EXCEPT !.status = 200, !.kind = "pprof"] /\ pc' = "commit"
             ELSE pc' = After("pprof") /\ UNCHANGED <<hdr, g, ans>>
-         /\ UNCHANGED <<site, sd, sl, cfg, x, nfresh, cur, rid, dfr, i, j, sel, sf, outs>>
+         /\ UNCHANGED <<site, sd, sl, cfg, x, nfresh, cur, rid, dfr, i, j, sel, sf, fin, rids>>
 \* expvar.ExpVar.ServeHTTP
 Expvar == /\ pc = "expvar"
           /\ IF PathMatches(cur, cfg.expvarRes)
@@ -469,9 +493,9 @@ Expvar == /\ pc = "expvar"
                   /\ g' = [g EXCEPT !.down = Down(@, "set", CT, "application/json; charset=utf-8")]
                   /\ ans' = [ans EXCEPT !.status = 200, !.kind = "expvar"] /\ pc' = "commit"
              ELSE pc' = After("expvar") /\ UNCHANGED <<hdr, g, ans>>
-          /\ UNCHANGED <<site, sd, sl, cfg, x, nfresh, cur, rid, dfr, i, j, sel, sf, outs>>
+          /\ UNCHANGED <<site, sd, sl, cfg, x, nfresh, cur, rid, dfr, i, j, sel, sf, fin, rids>>
 
-\* net/http.Redirect for a GET: Content-Type only if none is there yet
+\* net/http.Redirect for a GET: Content-Type - and the little HTML body - only if no Content-Type is there yet
 RedirectCT(h) == IF h[CT] = <<>> THEN [h EXCEPT ![CT] = <<TextHtml>>] ELSE h
 RedirectDown(d, h) == IF h[CT] = <<>> THEN Down(d, "set", CT, TextHtml) ELSE d
 HasIndexPage(dir) == \E q \in 1..Len(cfg.index) : Exists(Append(dir, cfg.index[q]))
@@ -480,12 +504,12 @@ Browse == /\ pc = "browse"
           /\ IF PathMatches(cur, cfg.browseBase) /\ IsDir(cur.segs)
              THEN IF ~cur.slash
                   THEN /\ hdr' = RedirectCT(hdr) /\ g' = [g EXCEPT !.down = RedirectDown(@, hdr)]
-                       /\ ans' = [ans EXCEPT !.status = 301, !.kind = "redirect", !.loc = PStr(cur) \o "/"] /\ pc' = "commit"
+                       /\ ans' = [ans EXCEPT !.status = 301, !.kind = "redirect", !.loc = PStr(cur) \o "/", !.body = (hdr[CT] = <<>>)] /\ pc' = "commit"
                   ELSE IF HasIndexPage(cur.segs) THEN pc' = After("browse") /\ UNCHANGED <<hdr, g, ans>>
                        ELSE /\ hdr' = [hdr EXCEPT ![CT] = <<TextHtml>>] /\ g' = [g EXCEPT !.down = Down(@, "set", CT, TextHtml)]
                             /\ ans' = [ans EXCEPT !.status = 200, !.kind = "listing"] /\ pc' = "commit"
              ELSE pc' = After("browse") /\ UNCHANGED <<hdr, g, ans>>
-          /\ UNCHANGED <<site, sd, sl, cfg, x, nfresh, cur, rid, dfr, i, j, sel, sf, outs>>
+          /\ UNCHANGED <<site, sd, sl, cfg, x, nfresh, cur, rid, dfr, i, j, sel, sf, fin, rids>>
 
 \* the innermost test handler: reports what it sees, runs the script of the request
 RECURSIVE ScriptHdr(_, _, _)
@@ -499,7 +523,7 @@ Inner == /\ pc = "inner"
                /\ CASE s.fin = "next"   -> pc' = "fs" /\ ans' = ans
                     [] s.fin = "write"  -> pc' = "commit" /\ ans' = [ans EXCEPT !.status = 200, !.kind = "inner"]
                     [] s.fin = "ret404" -> pc' = "fallback" /\ ans' = [ans EXCEPT !.status = 404, !.kind = "error"]
-         /\ UNCHANGED <<site, sd, sl, cfg, x, nfresh, cur, rid, dfr, i, j, sel, sf, outs>>
+         /\ UNCHANGED <<site, sd, sl, cfg, x, nfresh, cur, rid, dfr, i, j, sel, sf, fin, rids>>
 
 \* staticfiles.FileServer.serveFile
 FsOpen == /\ pc = "fs"
@@ -507,20 +531,20 @@ FsOpen == /\ pc = "fs"
              THEN ans' = [ans EXCEPT !.status = 404, !.kind = "error"] /\ pc' = "fallback" /\ UNCHANGED <<hdr, g, sf>>      \* return 404, nil
              ELSE IF IsDir(cur.segs) /\ ~cur.slash                                                                           \* canonical redirect
              THEN /\ hdr' = RedirectCT(hdr) /\ g' = [g EXCEPT !.down = RedirectDown(@, hdr)]
-                  /\ ans' = [ans EXCEPT !.status = 307, !.kind = "redirect", !.loc = PStr(cur) \o "/"] /\ pc' = "commit" /\ sf' = sf
+                  /\ ans' = [ans EXCEPT !.status = 307, !.kind = "redirect", !.loc = PStr(cur) \o "/", !.body = (hdr[CT] = <<>>)] /\ pc' = "commit" /\ sf' = sf
              ELSE IF IsFile(cur.segs) /\ cur.slash
              THEN /\ hdr' = RedirectCT(hdr) /\ g' = [g EXCEPT !.down = RedirectDown(@, hdr)]
-                  /\ ans' = [ans EXCEPT !.status = 307, !.kind = "redirect", !.loc = JoinSegs(cur.segs)] /\ pc' = "commit" /\ sf' = sf
+                  /\ ans' = [ans EXCEPT !.status = 307, !.kind = "redirect", !.loc = JoinSegs(cur.segs), !.body = (hdr[CT] = <<>>)] /\ pc' = "commit" /\ sf' = sf
              ELSE IF IsDir(cur.segs) THEN pc' = "fsindex" /\ UNCHANGED <<hdr, g, sf, ans>>
              ELSE pc' = "fsserve" /\ sf' = cur.segs /\ UNCHANGED <<hdr, g, ans>>
           /\ i' = 1
-          /\ UNCHANGED <<site, sd, sl, cfg, x, nfresh, cur, rid, dfr, j, sel, outs>>
+          /\ UNCHANGED <<site, sd, sl, cfg, x, nfresh, cur, rid, dfr, j, sel, fin, rids>>
 FsIndex == /\ pc = "fsindex"
            /\ IF i > Len(cfg.index) THEN ans' = [ans EXCEPT !.status = 404, !.kind = "error"] /\ pc' = "fallback" /\ UNCHANGED <<i, g, sf>>
               ELSE IF IsFile(Append(cur.segs, cfg.index[i]))
                    THEN sf' = Append(cur.segs, cfg.index[i]) /\ g' = [g EXCEPT !.idxK = i] /\ pc' = "fsserve" /\ UNCHANGED <<i, ans>>
                    ELSE i' = i + 1 /\ UNCHANGED <<pc, g, sf, ans>>
-           /\ UNCHANGED <<site, sd, sl, cfg, x, nfresh, cur, rid, hdr, dfr, j, sel, outs>>
+           /\ UNCHANGED <<site, sd, sl, cfg, x, nfresh, cur, rid, hdr, dfr, j, sel, fin, rids>>
 \* http.ServeContent: Content-Type from the served file's extension unless one is set already
 ByExt(e) == CASE e = ".txt" -> TextPlain [] e = ".html" -> TextHtml [] OTHER -> Auto
 FsServe == /\ pc = "fsserve"
@@ -528,21 +552,21 @@ FsServe == /\ pc = "fsserve"
               IN /\ hdr' = IF hdr[CT] = <<>> THEN [hdr EXCEPT ![CT] = <<t>>] ELSE hdr
                  /\ g' = [g EXCEPT !.down = IF hdr[CT] = <<>> THEN Down(@, "set", CT, t) ELSE @]
            /\ ans' = [ans EXCEPT !.status = 200, !.kind = "file", !.file = JoinSegs(sf)] /\ pc' = "commit"
-           /\ UNCHANGED <<site, sd, sl, cfg, x, nfresh, cur, rid, dfr, i, j, sel, sf, outs>>
+           /\ UNCHANGED <<site, sd, sl, cfg, x, nfresh, cur, rid, dfr, i, j, sel, sf, fin, rids>>
 
 \* the first WriteHeader / Write of whoever answers inside `header` goes through its responseWriterWrapper
 Commit == /\ pc = "commit"
           /\ hdr' = [n \in HdrNames |-> IF n \in dfr THEN <<>> ELSE hdr[n]]
           /\ ans' = [ans EXCEPT !.via = "wrapper"] /\ pc' = "net"
-          /\ UNCHANGED <<site, sd, sl, cfg, x, nfresh, cur, rid, dfr, i, j, sel, sf, g, outs>>
+          /\ UNCHANGED <<site, sd, sl, cfg, x, nfresh, cur, rid, dfr, i, j, sel, sf, g, fin, rids>>
 \* a status >= 400 travelled back up unwritten: log's ErrorFunc / Server.ServeHTTP call DefaultErrorFunc on the
 \* writer THEY hold - header's wrapper never sees this WriteHeader, its deferred deletions are not run
 Fallback == /\ pc = "fallback"
             /\ hdr' = [hdr EXCEPT ![CT] = <<TextPlain>>, ![XCTO] = <<"nosniff">>]
             /\ ans' = [ans EXCEPT !.via = "outside"] /\ pc' = "net"
-            /\ UNCHANGED <<site, sd, sl, cfg, x, nfresh, cur, rid, dfr, i, j, sel, sf, g, outs>>
+            /\ UNCHANGED <<site, sd, sl, cfg, x, nfresh, cur, rid, dfr, i, j, sel, sf, g, fin, rids>>
 
-HasBody(a) == a.kind # "status" /\ a.status \notin {204, 304}
+HasBody(a) == a.body /\ a.status \notin {204, 304}
 \* names whose final value the check does not judge (the code's behaviour is modelled, but it is not a promise):
 \*  - a name a matching rule deletes AND a later operation of the rules sets again (the deferred deletion wins when the
 \*    response goes through the wrapper, the later value when it does not);
@@ -576,7 +600,8 @@ Out(a, h) == [status |-> a.status, kind |-> a.kind, file |-> a.file, loc |-> a.l
 \* net/http: a body without Content-Type is sniffed
 Net == /\ pc = "net"
        /\ LET h == IF hdr[CT] = <<>> /\ HasBody(ans) THEN [hdr EXCEPT ![CT] = <<Auto>>] ELSE hdr
-          IN hdr' = h /\ outs' = Append(outs, Out(ans, h))
+          IN hdr' = h /\ fin' = Out(ans, h)
+       /\ rids' = Append(rids, [rid |-> rid, fresh |-> g.fresh])
        /\ pc' = "done"
        /\ UNCHANGED <<site, sd, sl, cfg, x, nfresh, cur, rid, dfr, i, j, sel, sf, ans, g>>
 
@@ -597,7 +622,7 @@ Serving == pc \notin {"build", "setup", "refused", "ready", "end"}
 Stages == {"rid", "ext", "exttry", "header", "status", "mime", "pprof", "expvar", "browse", "inner", "fs", "fsindex", "fsserve"}
 TypeOK == /\ pc \in {"build", "setup", "refused", "ready", "commit", "fallback", "net", "done", "end"} \cup Stages
           /\ \A d \in Directives : \A q \in 1..Len(site[d]) : site[d][q] \in Ids /\ Pool[site[d][q]].d = d
-          /\ NLines(site) <= MaxLines /\ x \in 0..NReq /\ Len(outs) \in {x - 1, x} \cup {0}
+          /\ NLines(site) <= MaxLines /\ x \in 0..NReq /\ Len(rids) \in {x - 1, x} \cup {0}
           /\ \A n \in HdrNames : \A q \in 1..Len(hdr[n]) : hdr[n][q] # ""  \/ n = "X-Rid"
           /\ dfr \subseteq HdrNames
 
@@ -613,6 +638,7 @@ WellFormed == /\ \A q \in 1..Len(AllLines(site)) : AllLines(site)[q] \in GoodIds
               /\ NoDup([q \in 1..Len(MimeEntries) |-> MimeEntries[q].e])                         \* one type per extension
               /\ NoDup(StatusBases)                                                               \* one code per path
               /\ Len(site["pprof"]) <= 1                                                          \* pprof once
+              /\ NoDup([q \in 1..Len(site["browse"]) |-> Pool[site["browse"][q]].base])           \* one browse configuration per path
 SetupRejectsDuplicatesAndBadArity ==
     /\ (pc = "refused" => ~WellFormed)
     /\ (pc \in {"ready", "end"} \cup (IF Serving THEN {pc} ELSE {}) => WellFormed)
@@ -629,7 +655,7 @@ SetupInv == pc = "ready" =>
     /\ \A q \in 1..Len(cfg.hrules) : cfg.hrules[q].keys = KeysOf(OpsOfPat(site["header"], cfg.hrules[q].pat))
 
 AtDone == pc = "done"
-Fin == outs[Len(outs)]
+Fin == fin
 \* ---- AllMatchingHeaderRulesApplyInOrder: when header calls the next handler, every header name carries the result of
 \* the operations of ALL matching lines, applied in the order written (names whose operations the setup regroups excepted)
 RECURSIVE FoldOps(_, _, _)
@@ -685,8 +711,8 @@ RequestIDStableWithinRequest ==
                                             Pool[site["request_id"][q]].name # "" /\ \A y \in (q+1)..Len(site["request_id"]) : Pool[site["request_id"][y]].name = ""]].name
                             client == named /\ lastname = ClientIdHeader /\ UuidValid(Rq0.cid)
                         IN Fin.fresh = ~client /\ (client => Fin.rid = UuidNorm(Rq0.cid)))
-    /\ \A a, b \in 1..Len(outs) : a # b /\ outs[a].fresh /\ outs[b].fresh => outs[a].rid # outs[b].rid
-    /\ \A a \in 1..Len(outs) : outs[a].fresh => outs[a].rid \notin {"", "cid:1"}
+    /\ \A a, b \in 1..Len(rids) : a # b /\ rids[a].fresh /\ rids[b].fresh => rids[a].rid # rids[b].rid
+    /\ \A a \in 1..Len(rids) : rids[a].fresh => rids[a].rid \notin {"", "cid:1"}
 \* ---- IndexAndExtFirstExistingWins
 OrigSegs == Rq0.p.segs
 ExtList == Flatten("ext", "exts")
@@ -722,7 +748,7 @@ LoopsInOrder == [][/\ (pc = "exttry" /\ pc' = "exttry" => i' = i + 1)
 NoStuck == (pc \in {"end", "refused"} \/ (pc = "build" /\ ~Sampled(site))) \/ ENABLED Next
 
 -----------------------------------------------------------------------------
-(* 7. emission: one head CASE, one CASE per site that was set up (the expected answers to the whole battery) *)
+(* 7. emission: one head CASE, one CASE per site that was set up (accepted or refused), one per site and request (the expected answer) *)
 
 SetToSeq(S) == LET RECURSIVE F(_) F(T) == IF T = {} THEN <<>> ELSE LET y == CHOOSE y \in T : TRUE IN <<y>> \o F(T \ {y}) IN F(S)
 HdrJson(h) == [n \in HdrNames |-> h[n]]
@@ -733,10 +759,11 @@ EmitHead(dummy) ==   \* (the parameter keeps TLC from evaluating this eagerly as
     PrintT(<<"CASE", ToJson([kind |-> "head",
         reqs |-> [y \in 1..NReq |-> [p |-> PStr(Reqs[y].p), inner |-> Reqs[y].inner, cid |-> Reqs[y].cid]],
         files |-> SetToSeq({JoinSegs(f) : f \in Files}), dirs |-> SetToSeq({BaseStr(d0) : d0 \in Dirs}),
-        order |-> DirOrder,
+        order |-> DirOrder, scripts |-> [sn \in DOMAIN InnerScripts |-> InnerScripts[sn]], names |-> SetToSeq(HdrNames),
         pool |-> [q \in 1..Len(IdSeq) |-> [id |-> IdSeq[q], d |-> Pool[IdSeq[q]].d, text |-> Pool[IdSeq[q]].text, bad |-> Pool[IdSeq[q]].bad]]])>>)
-EmitSite == PrintT(<<"CASE", ToJson([kind |-> "site", lines |-> [d \in Directives |-> site[d]], ok |-> pc = "end",
-                                     exp |-> IF pc = "end" THEN [y \in 1..Len(outs) |-> OutJson(outs[y])] ELSE <<>>])>>)
+EmitSite == PrintT(<<"CASE", ToJson([kind |-> "site", ids |-> AllLines(site), ok |-> pc = "ready"])>>)
+EmitAns  == PrintT(<<"CASE", ToJson([kind |-> "ans", ids |-> AllLines(site), x |-> x, out |-> OutJson(fin)])>>)
 Emit == /\ (pc = "build" /\ NLines(site) = 0 => EmitHead(site))
-        /\ (pc \in {"end", "refused"} => EmitSite)
+        /\ (pc \in {"ready", "refused"} => EmitSite)
+        /\ (pc = "done" => EmitAns)
 =============================================================================
